@@ -6,6 +6,15 @@ VERIF = os.path.dirname(os.path.dirname(os.path.abspath(__file__)))
 rnd, outroot, wtprefix = sys.argv[1], sys.argv[2], sys.argv[3]
 props = [json.loads(l) for l in open(os.path.join(VERIF, "properties.jsonl"))]
 EMPH = {
+ "15": ("This round: ORDER, ATOMICITY and LIFECYCLE without a data race. Seed a defect in which every shared access is properly locked or goes "
+       "through a channel, yet the outcome depends on an order that is not guaranteed: check-then-act across two critical sections, a lock "
+       "released too early or two locks taken one after the other where one atomic step is needed, a lost update, a goroutine started too "
+       "early or stopped too late, work handed to a channel after its consumer has gone, a counter or flag read before the step that makes it "
+       "true has finished, a start-up or shutdown sequence whose steps were reordered, a worker that is replaced while it still owns something, "
+       "a second start / stop / reload of something meant to run once, a timeout or retry that races with the completion it waits for. Where the "
+       "property is about a pure library function, use state that lives across calls instead (an object reused after an error, a second call on "
+       "the same receiver, initialisation order of package-level state). It must not be reported by the Go race detector; a single-threaded or "
+       "lightly loaded run must look healthy. Different mechanism, code site and trigger from everything listed."),
  "14": ("This round: a WRONG ASSUMPTION ABOUT A LIBRARY API. Make a plausible change (refactoring, modernisation, small feature, clean-up) whose "
        "code reads naturally but relies on a subtly wrong belief about the Go standard library or one of the vendored dependencies: what "
        "append does to a slice that has spare capacity, bytes.Buffer / strings.Builder reuse and the lifetime of Bytes(), io.Reader.Read versus "
